@@ -45,6 +45,15 @@ def runHandler (kind : String) (req : Request) : HandlerResult :=
     .response ⟨http11, 200, [], strBytes ("id=" ++ (kind.drop 1).toString)⟩
   else if kind == "e" then .response ⟨http11, 200, [], req.content.getD []⟩
   else if kind == "m" then .response ⟨http11, 200, [], []⟩
+  else if kind.startsWith "h" then
+    -- handlers that set headers of their own (`o`/`m`/`h`: one of the three CORS headers each, `x`: a custom one and Server)
+    let which := (kind.drop 1).toString
+    let hs : Headers :=
+      (if which.contains 'o' then [⟨hAcao, strBytes "https://h.example"⟩] else []) ++
+      (if which.contains 'm' then [⟨hAcam, strBytes "PATCH"⟩] else []) ++
+      (if which.contains 'h' then [⟨hAcah, strBytes "X-H"⟩] else []) ++
+      (if which.contains 'x' then [⟨HName.ofName (strBytes "X-Custom"), strBytes "1"⟩, ⟨hServer, strBytes "mine"⟩] else [])
+    .response ⟨http11, 200, hs, strBytes ("h" ++ which)⟩
   else .panic
 
 /-- One event of the script. `i` = a pause past the timeout; `d<hexz>` = one segment; `d<hexz>*<n>` = that segment `n`
@@ -124,7 +133,13 @@ def dispatch (fn : String) (args : List String) (impl : String) : Option Verdict
               | _ => none
             let wsModel := match r.ws with | some i => i | none => "-"
             if wsImpl == some wsModel then (some true, "") else (some false, "upgrade-routed-to-wrong-handler")
-          | some why => (some false, why)
+          | some why =>
+            -- The executable spec asks for the route's configured CORS values. A handler may set one of these headers
+            -- itself (app specs with `:h…` kinds): then the code's rule — a header the handler set is kept, every OTHER
+            -- configured one is added — is the model's `Cors.setHeaders`, and the model is the judge of that clause.
+            if why == "cors-headers" && (cfg.splitOn ":h").length > 1 then
+              if impl == renderResult r then (some true, "") else (some false, "cors-headers-not-per-header")
+            else (some false, why)
       some { model := renderResult r, spec := spec, reason := reason }
     | _, _, _ => some { model := "BADARGS" }
   | "conn_tokio", [cfg, _timeout, events, peer, oracle] =>
